@@ -1124,7 +1124,14 @@ impl SetPgid for VirtualSystem {
         }
 
         let mut state = self.state.borrow_mut();
-        if pgid != pid && !state.processes.values().any(|p| p.pgid == pgid) {
+        // A terminated process that has already been waited for is no longer a
+        // member of its process group.
+        if pgid != pid
+            && !state
+                .processes
+                .values()
+                .any(|p| p.pgid == pgid && (p.state().is_alive() || p.state_has_changed()))
+        {
             return Err(Errno::EPERM);
         }
         let process = state.processes.get_mut(&pid).ok_or(Errno::ESRCH)?;
@@ -1637,6 +1644,11 @@ fn send_signal_to_processes(
     let mut results = Vec::new();
 
     for (&_pid, process) in &mut state.processes {
+        // A terminated process that has already been waited for no longer
+        // exists as far as `kill` is concerned.
+        if !process.state().is_alive() && !process.state_has_changed() {
+            continue;
+        }
         if target_pgid.is_none_or(|target_pgid| process.pgid == target_pgid) {
             let result = if let Some(signal) = signal {
                 process.raise_signal(signal)
